@@ -89,6 +89,38 @@ def specFixStruct (t : CodeTable) (st : St) (e : StructE) (str : List Char) : Ex
   else if !l.all (fun np => (posOfStrandName st np.1).length == np.2.length) then .error .length
   else specFix t st (l.flatMap (fun np => posOfStrandName st np.1)) parts.flatten
 
+/-- reverse complement of a string of codes -/
+def wc (t : CodeTable) (s : List Char) : List Char := s.reverse.map (complC t)
+
+open Pepper.Sys in
+/-- replace the instance `cn` of a system -/
+def updComp (st : SysSt) (cn : String) (sub' : Inst) : SysSt :=
+  match st with
+  | .mk p n pf tm sg l comps i o =>
+    .mk p n pf tm sg l (comps.map (fun (c, x) => if c == cn then (c, sub') else (c, x))) i o
+
+open Pepper.Sys in
+/-- `fix_signal`, one binding, as a specification: the string that reaches the bound object is `str` when the
+    parity flag of the binding is false and its reverse complement when it is true; a component's port
+    sequence (always the unstarred object) is fixed to it position by position, a sub-system's signal is
+    fixed to it one level down -/
+def sigStepSpec (t : CodeTable) (fuel : Nat) (str : List Char) (acc : SysSt) (e : SigEntry) : Except Fix.Err SysSt :=
+  let s := if e.wc then wc t str else str
+  match acc.components.lookup e.comp with
+  | none => .error .key
+  | some sub =>
+    match e.port, sub with
+    | .seq it _, .comp cs =>
+      if (cs.findSeq it.name).isSome then
+        (specFix t cs (posOfView cs it.name false) s).map (fun cs' => updComp acc e.comp (.comp cs'))
+      else .error .key
+    | .sig sn, .sys ss =>
+      match fixSignal t fuel ss sn s with
+      | .error x => .error x
+      | .ok none => .error .key
+      | .ok (some ss') => .ok (updComp acc e.comp (.sys ss'))
+    | _, _ => .error .key
+
 /-! ### well-formedness of a loaded component -/
 
 def idxOf (st : St) (n : String) : Nat := st.seqs.findIdx (·.name == n)
